@@ -31,10 +31,21 @@ func fill(m protoreflect.Message, seed, depth int) {
 	fds := m.Descriptor().Fields()
 	for i := 0; i < fds.Len(); i++ {
 		fd := fds.Get(i)
-		if fd.IsList() || fd.IsMap() || fd.ContainingOneof() != nil {
+		if fd.ContainingOneof() != nil {
 			continue
 		}
 		k := seed + i
+		if fd.IsMap() {
+			// one entry, for maps from strings to strings (mode values and the like): a resource that is all map
+			// would otherwise never change value
+			if fd.MapKey().Kind() == protoreflect.StringKind && fd.MapValue().Kind() == protoreflect.StringKind {
+				m.Mutable(fd).Map().Set(protoreflect.ValueOfString(fmt.Sprintf("k%d", k%2)).MapKey(), protoreflect.ValueOfString(fmt.Sprintf("v%d", k%3)))
+			}
+			continue
+		}
+		if fd.IsList() {
+			continue
+		}
 		switch fd.Kind() {
 		case protoreflect.StringKind:
 			m.Set(fd, protoreflect.ValueOfString(fmt.Sprintf("s%d", k)))
